@@ -94,6 +94,16 @@ def moveV (cfg : TrkCfg) (g : GridM) (wdiff wadv : Rat) (x0 y0 : Rat) (z : Rat) 
     pure (reflect h z2)
   else some z
 
+/-- `Tracker.diffuse` / `diffuse_vert`: the diffusive velocity made from one standard normal
+    draw `xi` (generic: run at `Float` against the code, reasoned about at `ℝ` in `Props.C11`) -/
+def diffVel {α : Type} [VOps α] (D dt xi : α) : α :=
+  VOps.sqrt (VOps.ofNat 2 * D / dt) * xi
+
+/-- the displacement that velocity causes in one step, in grid units (`dx` = metric of the
+    particle's cell; for the vertical use `dx = 1`) -/
+def diffDisp {α : Type} [VOps α] (D dt dx xi : α) : α :=
+  diffVel D dt xi * dt / dx
+
 /-- `Tracker.update` for one particle -/
 def trackerStep (cfg : TrkCfg) (g : GridM) (vel : VelOracle) (du dv wdiff wadv : Rat) (p : Part) :
     Option Part := do
